@@ -225,6 +225,7 @@ static void other_thread_call(void)
 #endif
 
 /* ================================ (iii) del waits ========================================== */
+static int modelled_finish;
 static int in_cb_E;                 /* E's callback is executing (loop thread, lock released) */
 static int waits_in_cb, bcast_at_cb_end = -1, wait_depth_ok = 1, wait_counted = 1, wait_current_ok = 1;
 void c09_cond_wait_hook(void *cond, void *lock)
@@ -237,9 +238,35 @@ void c09_cond_wait_hook(void *cond, void *lock)
 	if (base->current_event_waiters < 1) wait_counted = 0;
 	if (base->current_event != event_to_event_callback(&E)) wait_current_ok = 0;
 	waits_in_cb++;
+#if C09_MODE == 3
+	/* POSIX lets pthread_cond_wait return spuriously: the FIRST wait returns with nothing changed.  Any further
+	 * wait ends the way harness_delwait proves the loop ends it: callback finished, current_event cleared,
+	 * waiters reset, broadcast. */
+	if (waits_in_cb >= 2) { base->current_event = NULL; base->current_event_waiters = 0; modelled_finish = 1; }
+#endif
 	/* (sequential execution: the wait returns; the broadcast that would end it is checked after the loop) */
 }
 
+#if C09_MODE == 3
+/* known finding KF-C09-spurious-wakeup: event_del waits ONCE on current_event_cond (no re-check loop) */
+static void delwait_call(void)
+{
+	int r;
+	vp_cur_thread = 2;
+#if C09_OP == OP_DEL_BLOCK
+	r = event_del_block(&E);
+#else
+	r = event_del(&E);
+#endif
+	vp_cur_thread = 1;
+	VP_ASSERT_NO_LOCKS("call made while the callback runs");
+	VP_ASSERT(waits_in_cb >= 1, "C09: the call waited for the running callback");
+	VP_ASSERT(base->current_event != event_to_event_callback(&E),
+	    "C09: event_del returned in another thread while the event's callback is still running (condition wait woke up spuriously and is not re-checked)");
+	VP_WITNESS("event_del returned after a spurious wake-up");
+	(void)r;
+}
+#endif
 #if C09_MODE == 2
 static void delwait_call(void)
 {
@@ -300,7 +327,7 @@ void cb(evutil_socket_t fd, short res, void *arg)
 #if C09_MODE == 1
 		VP_ASSERT(!e_deleted, "C09: the event's callback started after event_del had returned in the other thread");
 #endif
-#if C09_MODE == 2
+#if C09_MODE == 2 || C09_MODE == 3
 		if (!op_done && mode == 2) {
 			op_done = 1;
 			VP_ASSERT(base->current_event == event_to_event_callback(&E), "harness: E is the current event");
@@ -406,6 +433,19 @@ void harness_wakeup(void)
 	VP_WITNESS("end of harness");
 }
 
+#elif C09_MODE == 3
+void harness_delwait_spurious(void)
+{
+	int r;
+	mode = 2;
+	setup(2);
+	vp_cond_wait_hook = c09_cond_wait_hook;
+	r = event_base_loop(base, EVLOOP_ONCE);
+	(void)r;
+	VP_ASSERT(op_done && ncb_E >= 1, "harness: E's callback ran and made the call");
+	VP_ASSERT_NO_LOCKS("event_base_loop");
+	VP_WITNESS("end of harness");
+}
 #else
 void harness_delwait(void)
 {
